@@ -274,15 +274,36 @@ if not mt:
 mt2 = re.search(r"jpeg_save_markers\s*\(\s*dinfo\s*,\s*JPEG_APP0\s*\+\s*2\s*,\s*(0[xX][0-9a-fA-F]+|\d+)\s*\)", tj)
 if not mt2:
     die("turbojpeg.c: tj3DecompressHeader no longer saves APP2 markers")
-# tj3Transform: is the instance profile (tj3SetICCProfile) written whatever the copy option is?
+# tj3Transform: when is the instance profile (tj3SetICCProfile) written after the copied markers?
+#   old form : if (iccBuf != NULL && iccSize != 0) jpeg_write_icc_profile(...)            -> unconditional (flag 1)
+#   fixed    : iccCopied = TRUE when the option is JCOPYOPT_ALL / JCOPYOPT_ICC and the source marker list holds an
+#              APP2 marker of at least N bytes starting with the identifier; written only if !iccCopied  (flag 0)
 tb = func_body(tj, "tj3Transform", "turbojpeg.c")
-mx = re.search(r"jcopy_markers_execute\s*\(.*?\)\s*;\s*if\s*\((.*?)\)\s*jpeg_write_icc_profile\s*\(", tb, re.S)
+mx = re.search(r"jcopy_markers_execute\s*\(.*?\)\s*;(.*?)jpeg_write_icc_profile\s*\(", tb, re.S)
 if not mx:
-    die("turbojpeg.c: tj3Transform no longer calls jpeg_write_icc_profile right after jcopy_markers_execute")
-cond = " ".join(mx.group(1).split())
-tj_icc_uncond = 1 if cond == "this->iccBuf != NULL && this->iccSize != 0" else 0
-if not tj_icc_uncond and "saveMarkers" not in cond and "COPYNONE" not in cond:
-    die("turbojpeg.c: tj3Transform ICC condition not understood: " + cond)
+    die("turbojpeg.c: tj3Transform no longer calls jpeg_write_icc_profile after jcopy_markers_execute")
+between = " ".join(mx.group(1).split())
+tj_icc_minlen, tj_icc_sig = 12, list(sigr)
+if re.fullmatch(r"if \(this->iccBuf != NULL && this->iccSize != 0\)", between):
+    tj_icc_uncond = 1
+else:
+    tj_icc_uncond = 0
+    mg = re.search(r"if \(copyOption == JCOPYOPT_ALL \|\| copyOption == JCOPYOPT_ICC\) \{.*?for \(marker = dinfo->marker_list; marker != NULL; "
+                   r"marker = marker->next\) \{ if \(marker->marker == JPEG_APP0 \+ 2 && marker->data_length >= (\d+) && "
+                   r"!memcmp\(marker->data, \"((?:[^\"\\\\]|\\\\.)*)\", (\d+)\)\) iccCopied = TRUE; \} \} "
+                   r"if \(this->iccBuf != NULL && this->iccSize != 0 && !iccCopied\)$", between)
+    if not mg:
+        die("turbojpeg.c: tj3Transform ICC condition not understood: " + between[:300])
+    if not re.search(r"copyOption\s*=\s*t\[i\]\.options\s*&\s*TJXOPT_COPYNONE\s*\?\s*JCOPYOPT_NONE\s*:\s*\(JCOPY_OPTION\)\s*this->saveMarkers", tb) or \
+       not re.search(r"jcopy_markers_execute\s*\(\s*dinfo\s*,\s*cinfo\s*,\s*copyOption\s*\)", tb):
+        die("turbojpeg.c: tj3Transform copyOption is no longer COPYNONE ? NONE : saveMarkers")
+    lit = mg.group(2).encode().decode("unicode_escape").encode("latin-1")
+    ncmp = int(mg.group(3))
+    lit = (lit + b"\0")[:ncmp]            # memcmp may include the literal's terminating NUL
+    if len(lit) != ncmp:
+        die("turbojpeg.c: tj3Transform memcmp length exceeds the literal")
+    tj_icc_minlen, tj_icc_sig = int(mg.group(1)), list(lit)
+
 # turbojpeg.h: iMCU sizes per subsampling level and the TJSAMP enumerators (getSubsamp / setCompDefaults)
 tjh = rd("turbojpeg.h")
 mw = re.search(r"tjMCUWidth\[TJ_NUMSAMP\]\s*=\s*\{([^}]*)\}", tjh)
@@ -355,4 +376,6 @@ for k in ("TJSAMP_444", "TJSAMP_422", "TJSAMP_420", "TJSAMP_GRAY", "TJSAMP_440",
 P("Definition TJ_NUMSAMP : Z := %d.\nDefinition D_MAX_BLOCKS_IN_MCU : Z := %d." % (len(mcuw), dmax))
 P("(* 1: tj3Transform writes the profile set by tj3SetICCProfile after the copied markers whatever the copy option is *)")
 P("Definition TJ_TRANSFORM_ICC_UNCONDITIONAL : Z := %d." % tj_icc_uncond)
+P("(* the test that sets iccCopied in tj3Transform: APP2, data_length >= MINLEN, data starts with these bytes *)")
+P("Definition TJ_ICC_COPIED_MINLEN : Z := %d.\nDefinition tj_icc_copied_sig : list Z := %s." % (tj_icc_minlen, zl(tj_icc_sig)))
 print("\n".join(out))
